@@ -2553,7 +2553,14 @@ struct SeqCase
         taken    = std::move(pend[i]);
         pend.erase(pend.begin() + static_cast<long>(i));
         pending = &taken;
-        logger  = taken.logger;
+        // usually through the logger that created it; one time in five through another enabled logger of the same
+        // provider (a record prepared by a helper and handed over): it must carry the scope of the logger it is
+        // emitted through (from seeded change C13-w6-2)
+        if (logger != taken.logger && env.loggers[logger].enabled && env.loggers[taken.logger].enabled &&
+            vf::mix(taken.m.obs_lo, 0x51) % 5 == 0)
+          R.count("records_emitted_through_another_logger");
+        else
+          logger = taken.logger;
       }
     }
     uint64_t sub = r.next();
